@@ -314,8 +314,17 @@ func fillMessage(m spec.MessageWriter, n *tree.Node, r Route) error {
 		}
 		half := len(n.Fields) / 2
 		for _, f := range n.Fields[:half] {
-			if err := writeField(m, f.Tag, f.Val, RPooled); err != nil {
+			// nested messages are split and merged the same way (their writer shares the field stack with m)
+			if err := writeField(m, f.Tag, f.Val, RCopy); err != nil {
 				return err
+			}
+			if !m.HasField(f.Tag) {
+				return fmt.Errorf("MessageWriter.HasField(%d) false after writing it", f.Tag)
+			}
+		}
+		for _, f := range n.Fields[half:] {
+			if m.HasField(f.Tag) {
+				return fmt.Errorf("MessageWriter.HasField(%d) true before merging it in", f.Tag)
 			}
 		}
 		if half%2 == 0 {
